@@ -40,6 +40,12 @@ theorem rotate_toList (fuel : Nat) : ∀ (l : T α) (d : α) (r : T α),
 @[simp] theorem fix_toList (l : T α) (d : α) (r : T α) : toList (fix l d r) = toList l ++ d :: toList r := by
   unfold fix; split <;> simp [rotate_toList]
 
+theorem size_eq_length (t : T α) : size t = (toList t).length := by
+  induction t with
+  | nil => rfl
+  | node l d r h ls rs ihl ihr => simp [size, toList, ihl, ihr]; omega
+
+
 section ord
 variable [Ord α] [TransOrd α] [LawfulEqOrd α]
 
